@@ -79,8 +79,16 @@ def check_ops(ctx, name, layout, ops, base):
 
         with warnings.catch_warnings():
             warnings.simplefilter("ignore")
-            pop = Population.from_swc(root)
+            try:
+                pop = Population.from_swc(root)
+            except Exception as e:  # building a population over any layout of the quantifier must not fail
+                ctx.violation("Population.from_swc", "operation-raises", spec, f"{type(e).__name__}: {e}", "no exception", spec)
+                return
         files = list(pop.trees.swcs)
+        listed = sorted(os.path.relpath(f, root) for f in files)
+        if listed != sorted(k for k in layout if k.endswith(".swc")):
+            ctx.violation("Population.find_swcs", "exactly-the-names-with-the-extension-are-listed", spec, listed, sorted(k for k in layout if k.endswith(".swc")), spec)
+            return
         if len(pop) != nfiles:
             ctx.violation("Population.__len__", "number-of-files", spec, len(pop), nfiles, spec)
         probe = dict(rc.reads)
